@@ -140,9 +140,7 @@ func H_C09_stream_vs_buffer(t *verifrt.T) {
 		case 0:
 			t.Assert("same-value", bi == si)
 		case 1:
-			same := bs == ss
-			t.Known("D7-stream-replaces-invalid-UTF-8-buffer-keeps-it", !same)
-			t.Assert("same-value", verifrt.Or(same, verifref.StringLiteral(trimWS(data)).BadUTF8))
+			t.Assert("same-value", bs == ss)
 		case 2:
 			t.Assert("same-value", bb == sb)
 		case 3:
